@@ -36,7 +36,7 @@ namespace
                 if (b == '\r') { col = 0; return; }
                 if (b == '\n') { row.clear(); col = 0; rows_committed++; return; }
                 if (b == 0x07) return; // BEL: audible only
-                if (b >= 0x20 && b < 0x7F)
+                if ((b >= 0x20 && b < 0x7F) || b >= 0x80) // (bytes of the upper half: one glyph per byte, a Latin-1 terminal)
                 {
                     if (col >= row.size()) row.resize(col + 1, ' ');
                     row[col++] = (char)b;
@@ -170,7 +170,7 @@ namespace
                 if (big && r.chance(1, 6)) k = K_FILL;
                 if (r.chance(1, 70)) k = K_REINIT; // the owner restarts the session on the same object: a: new capacity, b: new history depth
                 // a: printable selector / enter variant / unknown byte ; b: noise byte
-                p.ops.push_back({k, (int64_t)r.below(95), (int64_t)r.below(256)});
+                p.ops.push_back({k, r.chance(1, 8) ? (int64_t)(95 + r.below(128)) : (int64_t)r.below(95), (int64_t)r.below(256)});
             }
             return p;
         }
@@ -181,7 +181,7 @@ namespace
             {
                 int k = (int)mod(arg(o, 0), K_N);
                 s += std::string(" ") + K_NAME[k];
-                if (k == K_PRINT) s += std::string("'") + (char)(0x20 + mod(arg(o, 1), 95)) + "'";
+                if (k == K_PRINT) { int pv = (int)mod(arg(o, 1), 223); char hb[8]; snprintf(hb, sizeof hb, "<%02x>", pv < 95 ? 0x20 + pv : 0x80 + (pv - 95)); s += pv < 95 ? std::string("'") + (char)(0x20 + pv) + "'" : std::string(hb); }
                 if (k == K_ENTER) s += std::to_string(mod(arg(o, 1), 4));
                 if (k == K_NOISE) s += std::to_string(mod(arg(o, 2), 256));
                 if (k == K_REINIT) s += "(cap=" + std::to_string(2 + mod(arg(o, 1), 23)) + ",hist=" + std::to_string(1 + mod(arg(o, 2), 9)) + ")";
@@ -297,7 +297,10 @@ namespace
                 {
                 case K_PRINT:
                 {
-                    char c = (char)(0x20 + mod(arg(o, 1), 95));
+                    // arg 1: 0..94 the ASCII printables; 95..222 the bytes 0x80..0xFF (a user typing Latin-1 / UTF-8 text)
+                    int pv = (int)mod(arg(o, 1), 223);
+                    char c = (char)(pv < 95 ? 0x20 + pv : 0x80 + (pv - 95));
+                    if (pv >= 95) probe("high_byte_typed");
                     if (ref.cursor < ref.line.size()) { mid_edit = true; probe("insert_mid_line"); }
                     if (ref.line.size() + 1 >= cap) { probe("line_full"); fault("overlong_line"); }
                     feed((unsigned char)c);
